@@ -99,15 +99,17 @@ def computeSignB (S : Setup α) (s p : Beam.Beam α) : Outcome Bool :=
 /-- `f64::INFINITY` -/
 def infinity : α := (1.0 : α) / (0.0 : α)
 
+/-- `Result<PolingPeriod, _>` value as the `f64` it carries -/
+def periodValue : Auto.Period α → α
+  | .infinite => infinity
+  | .finite v => v
+
 /-- `optimum_poling_period(signal, pump, crystal_setup)`: signed period in metres (`+∞` when the
 unpoled mismatch is exactly zero), `Err` when the search ends on the crystal-length bound -/
 def optimumPolingPeriodB (S : Setup α) (s p : Beam.Beam α) : Outcome α :=
   (dkzOptimum S s p .off).bind fun z =>
     (Auto.optimumPolingPeriod z
-      (fun neg per => costOf ((dkzOptimum S s p (.on per neg)).map Transc.abs)) S.L).map fun r =>
-      match r with
-      | .infinite => infinity
-      | .finite v => v
+      (fun neg per => costOf ((dkzOptimum S s p (.on per neg)).map Transc.abs)) S.L).map periodValue
 
 /-- the cost closure of `CrystalSetup::optimum_theta`: crystal at angle `θ`, signal re-aimed at the
 external angle it had, optimum idler (no poling), `|Δk_z|` -/
